@@ -7,6 +7,8 @@ import (
 
 // OpenAPI structural validator (C17), written from the OpenAPI 3.0.3 structure the property names.
 
+var oasTemplateExpr = regexp.MustCompile(`\{([^{}/]+)\}`)
+
 var oasRespKey = regexp.MustCompile(`^([1-5][0-9][0-9]|default)$`)
 
 func collectRefs(n *ON, acc *[]string) {
@@ -103,6 +105,16 @@ func OASCheck(oas, cat *ON) *Violation {
 			}
 			if r := d.Get("required"); r == nil || r.Kind != 'b' || !r.Bool {
 				return V("c17:path-param-not-required", "interaction %q: path parameter %q is not required:true", key, prm)
+			}
+		}
+		// OpenAPI reads every {name} of the path template as a parameter, also inside a segment ("/files/{name}.json")
+		whole := map[string]bool{}
+		for _, prm := range PathParams(it.S("path")) {
+			whole[prm] = true
+		}
+		for _, m := range oasTemplateExpr.FindAllStringSubmatch(it.S("path"), -1) {
+			if !whole[m[1]] && decl[m[1]] == nil {
+				return V("c17:path-template-undeclared:partial-segment", "interaction %q: the path template contains {%s} inside a segment, which OpenAPI reads as a path parameter, and no such parameter is declared", key, m[1])
 			}
 		}
 		if rs := op.Get("responses"); rs != nil {
